@@ -1,15 +1,15 @@
 SPECIFICATION Spec
 CONSTANTS
-  Model = "PREM"
-  Radii <- PremRadii
-  ProbeSets <- PremProbes
+  Model = "CMC"
+  Radii <- CmcRadii
+  ProbeSets <- CmcProbes
   Forms = {"scalar", "list", "array", "column", "int"}
   Endpoints = {1, 2, 3, 4, 5, 6}
   AboveEndpoints = {5, 6}
   Zeniths = {0, 1, 2, 3, 4, 5, 6, 7, 8, 9}
   HorizonIndex = 3
   Factors = {2, 5}
-  MaxLevel = 4
+  MaxLevel = 6
 CONSTRAINT LevelBound
 INVARIANT ShellsPartition
 INVARIANT ProbeShells
